@@ -100,6 +100,21 @@ FORMS = [
     "[x for x in A if x in B]", "for x in A do if x == B then break; end",
     "for x in A do continue end",
     "while TRUE do for x in A do break end; break end",
+    # errors raised inside loops, callbacks and evaluated text keep their value
+    "do for x in A do error B end catch B 1 end",
+    "do for x in A do undefined_zz end catch all 1 end",
+    "def f(x) error B; do f(A) catch B 1 end",
+    "do eval(A) catch B 1 end", "do eval('error ' + string([A]) + '[0]') catch A 1 end",
+    # loops that change what they iterate
+    "for v in values A do A->zz = v end", "for k in keys A do remove(A, k) end",
+    "for x in A do append(A, B); if length(A) > 6 then break end",
+    # prototype chains
+    "def o = <*a = A*>; o->_proto_ = o; o->zz",
+    "def o = <*a = A*>; o->_proto_ = o; string(o)",
+    "def o = <*a = A*>; o->_proto_ = <*_proto_ = o*>; o->zz(B)",
+    # names the library looks up
+    "def compare = A; sorted(B)", "def identity = A; sorted(B)",
+    "def f(l) do def identity = A; sorted(l) end; f(B)",
     # control
     "if A then 1 else 2", "if B then 1 elif A then 2", "while A do break end",
     "error A", "do error B catch A 1 end", "do error A catch all 2 end",
@@ -328,6 +343,8 @@ RICH_STRINGS = [
     "'yyyy-MM-dd'", "'HH:mm:ss'", "'yyyyMMddHHmmssSSS'", "'%Y'", "'%'",
     "'dd.MM.yyyy HH'", "'y'", "''", "' '", "'\n'", "'a\nb\r\nc'",
     "'TRUE'", "'true'", "'NULL'", "'äöü€😀'", "'a,b,,c'", "','", "'ab' * 50",
+    # characters that are digits for isdigit() but not for int()
+    "'²²²²0101'", "'²²'", "'2020010¹'", "'١٢٣٤٠١٠١'", "'a\x00b'",
 ]
 RICH_NUMBERS = ["0", "1", "-1", "2", "7", "-7", "31", "32", "33", "63", "64",
                 "65", "255", "256", "1000", "65536", "-65536", "0.5", "-0.5", "1e-7 * 1" if False
@@ -344,6 +361,10 @@ RICH_COLLECTIONS = [
     "<<<'x' => <<<'y' => 1>>> >>>", "<<<'lst' => 1, 'start' => 2>>>",
     "<*a = 1, b = 'x'*>", "<*f = fn(self) 1*>", "<*a = <*b = 1*>*>",
     "<*_proto_ = <*a = 1*>, b = 2*>", "<**>", "'abc'", "'a'",
+    # objects with special members of the wrong kind
+    "<*_proto_ = NULL*>", "<*_proto_ = 5, a = 1*>", "<*_str_ = fn(self) 'S'*>",
+    "<*_str_ = 1*>", "<*_str_ = fn(self) 5*>", "<*_init_ = 1*>",
+    "<*_proto_ = <*_proto_ = NULL*>*>",
 ]
 RICH_FUNCS = [
     "fn(a, b) a", "fn(a) 'x'", "fn(a, b) 'x'", "fn(a...) a...",
@@ -353,6 +374,7 @@ RICH_FUNCS = [
     "fn(x) fn(y) x", "string", "fn(x) 1 / 0",
 ]
 RICH_OTHER = ["NULL", "TRUE", "FALSE", "//[a-z]+//", "//^a.c$//", "//(a)|b//",
+              "//(x)?b//", "//(a)|(b)//", "stdin", "stdout", "console",
               "date('20200229')", "date('20201231235959')",
               "date('19000101')", "str_input('l1\nl2\n\nl4')",
               "str_input('')", "str_output()", "decimal('inf')",
@@ -382,6 +404,8 @@ def run_fuzz_case(case, budget=2.0):
     vals = []
     for a in case["args"]:
         o = sw.run_src(a, {}, budget)
+        if o[0] in ("host", "badvalue"):
+            return o, "value:" + a      # the literal itself is the finding
         if o[0] != "value":
             return ("missing",), "?"
         vals.append(o[1])
